@@ -579,7 +579,8 @@ func init() {
 		it := fr.it
 		it.sched.enabled = true
 		it.sched.bound = argInt(args[0])
-		it.path.concurrent = true
+		// (bound < 0: one deterministic schedule -- such paths are still validated natively)
+		it.path.concurrent = it.sched.bound >= 0
 		return nil
 	})
 	reg(rtPkg+"Yield", func(fr *frame, args []Value) Value { fr.it.yield(fr); return nil })
